@@ -29,7 +29,7 @@ import (
 
 func TestMain(m *testing.M) {
 	harness.Describe(
-		"batches of programs drawn from a typed, weighted grammar of standard jq (lib/jqgen: paths, arithmetic, comparison, and/or, //, if/elif, try/catch, ?, reduce, foreach (2 and 3 args), label/break, limit/first/until/while/repeat/recurse under bounds, object/array construction incl. computed, keyword and $var keys, string interpolation and @formats, as-binds with array/object destructuring and ?//, def with closure and value parameters, assignment/update operators, path(), del, getpath/setpath, to_entries/with_entries, group_by/unique/sort, and - weighted up - every built-in fq redefines: split/1,2 splits test match capture scan explode tojson fromjson @json debug debug(f) stderr, with regex arguments from a regex grammar plus literal metacharacter strings and flag strings) x one JSON input per batch (depth<=3: null, booleans, small/53-bit/64-bit/big integers, floats incl. subnormal and huge, ASCII/BMP/astral/control strings, arrays, objects with unicode/empty keys). Each pair runs in fq (Interp.Eval, batched; one pair per batch also through the whole CLI: fq -nc --argjson in V '$in | (P)') and in gojq (Parse/Compile/Run with debug/stderr defined as pass-through). A pair is non-trivial when the program calls an overloaded built-in or uses >= 3 grammar levels, and produces an output or raises an error on the given input (in the reference). distinct = hash of program text + input JSON.",
+		"batches of programs drawn from a typed, weighted grammar of standard jq (lib/jqgen: paths, arithmetic, comparison, and/or, //, if/elif, try/catch, ?, reduce, foreach (2 and 3 args), label/break, limit/first/until/while/repeat/recurse under bounds, object/array construction incl. computed, keyword and $var keys, string interpolation and @formats, as-binds with array/object destructuring and ?//, def with closure and value parameters, assignment/update operators, path(), del, getpath/setpath, to_entries/with_entries, group_by/unique/sort, and - weighted up - every built-in fq redefines: split/1,2 splits test match capture scan explode tojson fromjson @json debug debug(f) stderr, with regex arguments from a regex grammar plus literal metacharacter strings and flag strings) x one JSON input per batch (depth<=3: null, booleans, small/53-bit/64-bit/big integers, floats incl. subnormal and huge, ASCII/BMP/astral/control strings, arrays, objects with unicode/empty keys). Each pair runs in fq (Interp.Eval, batched; one pair per batch also through the whole CLI: fq -nc --argjson in V '$in | (P)') and in gojq (Parse/Compile/Run with debug/stderr defined as pass-through). A third of the batches also deliver the input as a decoded JSON document (`TEXT | fromjson`, what `fq P file.json` sees): outputs are compared with the reference on the parsed text, and evaluating the program must not change its input (tojson before == after, model-free). A pair is non-trivial when the program calls an overloaded built-in or uses >= 3 grammar levels, and produces an output or raises an error on the given input (in the reference). distinct = hash of program text + input JSON.",
 		"error messages and uncaught error values are not compared, only the position of the failure",
 		"numbers are compared by mathematical value (1 and 1.0 are the same output); NaN equals NaN",
 		"programs that do not terminate, read the environment/clock/inputs (now, env, $ENV, input, inputs, input_filename, localtime, halt, halt_error, $__loc__, modulemeta, builtins) are not generated",
